@@ -12,10 +12,14 @@ Fixpoint strip_spec (t: fty) : fty :=
   | FFinal (Some t') => strip_spec t'
   | _ => t end.
 
-Definition core_nullable (c: fcore) : bool := c_any_none c || c_tv_any c || c_optional c || c_union_none c.
+(* since /repo 4da7e9e the tests look at the type as written AND at what its type variables are bound to in this
+   specialisation (real_type): `gv: T` of G[Optional[int]] is nullable.  c_union_none (the union test on the type
+   as written) is no longer consulted. *)
+Definition core_nullable (c: fcore) : bool :=
+  c_any_none c || c_real_any_none c || c_tv_any c || c_optional c || c_real_union_none c.
 
-(* nullable = the stripped core is Any/None, an unconstrained TypeVar, an Optional or (since /repo 906a805) any
-   Union with a None member, or the default is None *)
+(* nullable = the stripped core is Any/None (as written or after substitution), an unbound unconstrained TypeVar, an
+   Optional, or its substituted form is a Union with a None member (906a805, 4da7e9e), or the default is None *)
 Theorem K20_spec_thm : forall t d,
   is_field_nullable t d =
   (match strip_spec t with FCore c => core_nullable c | _ => false end) || d.
